@@ -145,6 +145,31 @@ func basmSweep(thorough bool) []source {
 				}
 			}
 		}
+		// code in RAM as well as in ROM (execmode hy / vn): the processor's opcode set is the union of what the two
+		// code sections use; the sections share all / some / none of their opcodes, lengths around the powers of two
+		romBodies := [][]string{{"inc r0", "j _start"}, {"rset r0, 5", "add r0, r1", "r2o r0, o0", "j _start"}}
+		ramBodies := [][]string{{"inc r2", "dec r2"}, {"inc r2", "add r2, r0", "j _rs"}, {"inc r0", "j _rs"}, {"rset r3, 1", "cpy r1, r3", "j _rs"}}
+		for ri, rb := range romBodies {
+			for _, mb := range ramBodies {
+				for _, pad := range []int{0, 1, 5, 13} {
+					for _, mode := range []string{"hy", "vn"} {
+						var ram []string
+						for i := 0; i < pad; i++ {
+							ram = append(ram, "inc r2")
+						}
+						ram = append(ram, mb...)
+						var outs []int
+						if ri == 1 {
+							outs = []int{0}
+						}
+						src := basmProgram(rs, rb, nil, outs)
+						src = strings.Replace(src, "%meta cpdef p0 romcode: prog, ramsize:8",
+							"%section rcode .ramtext iomode:async\n\tentry _rs\n_rs:\n\t"+strings.Join(ram, "\n\t")+"\n%endsection\n\n%meta cpdef p0 romcode: prog, ramcode: rcode, execmode: "+mode, 1)
+						out = append(out, source{"basm", "rom-code+ram-code", src, nil, false})
+					}
+				}
+			}
+		}
 		// register × length combined at the boundaries
 		for _, r := range []int{1, 2, 3, 4, 15, 16} {
 			for _, l := range []int{3, 4, 5, 8, 9} {
